@@ -111,8 +111,9 @@ class H11Protocol:
 
     async def handle(self, event: Event) -> None:
         if isinstance(event, RawData):
-            self.connection.receive_data(event.data)
-            await self._handle_events()
+            if not self._last_response_in_progress():
+                self.connection.receive_data(event.data)
+                await self._handle_events()
         elif isinstance(event, Closed):
             if self.stream is not None:
                 await self._close_stream()
@@ -149,8 +150,17 @@ class H11Protocol:
         elif isinstance(event, StreamClosed):
             await self._maybe_recycle()
 
+    def _last_response_in_progress(self) -> bool:
+        # The client's last request is complete and the connection
+        # closes after its response, anything further the client
+        # sends is ignored rather than cutting that response short.
+        return self.connection.their_state is h11.MUST_CLOSE and self.stream is not None
+
     async def _handle_events(self) -> None:
         while True:
+            if self._last_response_in_progress():
+                break
+
             if self.connection.they_are_waiting_for_100_continue:
                 await self._send_h11_event(
                     h11.InformationalResponse(
